@@ -550,6 +550,17 @@ func cowExhaustive(tier string) []corr.Case {
 			"chmod " + h("/d/big") + " 384", "openfile " + h("/d/big") + " 2 420", "h.writeat 1 5959595959 33000", "h.seek 1 5 0", "h.write 1 5a5a", "h.trunc 1 7", "h.close 1", "snapshot"}
 		cases = append(cases, corr.Case{Lines: l})
 	}
+	// base files that end in zero bytes (one whole copy block of them, a few, nothing but zeros): a copy-up keeps their length
+	for _, st := range []string{"cow-mem", "cow-ro"} {
+		for fi, content := range []string{strings.Repeat("000102030405060708090a0b0c0d0e0f", 2048) + strings.Repeat("00", 512), strings.Repeat("00", 100), strings.Repeat("00", 40000), "6162" + strings.Repeat("00", 33000)} {
+			for _, op := range []string{"chmod %s 384", "chtimes %s 5", "openfile %s 2 420"} {
+				l := []string{"case " + st, "b.mkdirall " + h("/d") + " 493", "b.create " + h("/d/z"), "h.write 0 " + content, "h.close 0", "b.age",
+					fmt.Sprintf(op, h("/d/z")), "stat " + h("/d/z"), "open " + h("/d/z"), fmt.Sprintf("h.seek %d -3 2", map[bool]int{true: 2, false: 1}[strings.HasPrefix(op, "openfile")]), "snapshot"}
+				_ = fi
+				cases = append(cases, corr.Case{Lines: l})
+			}
+		}
+	}
 	// a listing through a union handle, a rewind of the handle, a listing again: every name once
 	for _, st := range stacks {
 		l := []string{"case " + st, "b.mkdirall " + h("/d") + " 493", "l.mkdirall " + h("/d") + " 493"}
